@@ -50,8 +50,8 @@ M('C02', 'exchange-from-routing-key', 'src/exchange.rs', 'self.channel.basic_pub
 M('C03', 'overrun-accepted', COLL, 'Ordering::Less => {', 'Ordering::Less | Ordering::Greater => {', 'R03.1')
 M('C03', 'redelivered-constant', 'src/delivery.rs', '                redelivered: deliver.redelivered,', '                redelivered: false,', 'R03.4')
 M('C03', 'bounded-consumer-queue', CST, 'let (tx, rx) = crossbeam_channel::unbounded();', 'let (tx, rx) = crossbeam_channel::bounded(16);', 'R03.6')
-M('C03', 'done-keeps-kind', COLL, '                Content::Done(return_) => {\n                    self.kind = None;\n                    Ok(Some(CollectorResult::Return(return_)))\n                }\n                Content::NeedMore(state) => {\n                    self.kind = Some(Kind::Return(state));\n                    Ok(None)\n                }\n            },\n            Some(Kind::Get(state)) => match state.collect_body',
-  '                Content::Done(return_) => {\n                    Ok(Some(CollectorResult::Return(return_)))\n                }\n                Content::NeedMore(state) => {\n                    self.kind = Some(Kind::Return(state));\n                    Ok(None)\n                }\n            },\n            Some(Kind::Get(state)) => match state.collect_body', 'R03.1')
+M('C03', 'needmore-drops-state', COLL, '                Content::Done(return_) => {\n                    self.kind = None;\n                    Ok(Some(CollectorResult::Return(return_)))\n                }\n                Content::NeedMore(state) => {\n                    self.kind = Some(Kind::Return(state));\n                    Ok(None)\n                }\n            },\n            Some(Kind::Get(state)) => match state.collect_body',
+  '                Content::Done(return_) => {\n                    self.kind = None;\n                    Ok(Some(CollectorResult::Return(return_)))\n                }\n                Content::NeedMore(state) => {\n                    Ok(None)\n                }\n            },\n            Some(Kind::Get(state)) => match state.collect_body', 'R03.1')
 M('C03', 'body-arm-constant-channel', CST, '            AMQPFrame::Body(n, body) => {\n                let slot = slot_get_mut(inner, n)?;', '            AMQPFrame::Body(n, body) => {\n                let _ = n;\n                let slot = slot_get_mut(inner, 1)?;', 'R03.5')
 M('C03', 'get-exchange-routing-key-swapped', 'src/delivery.rs', '            exchange: get_ok.exchange,\n            routing_key: get_ok.routing_key,\n            body,\n            properties,\n        }\n    }\n\n    /// The server-assigned', '            exchange: get_ok.routing_key,\n            routing_key: get_ok.exchange,\n            body,\n            properties,\n        }\n    }\n\n    /// The server-assigned', 'R03.4')
 M('C03', 'blocking-send-to-consumer', CST, '    match tx.try_send(item) {\n        Ok(()) => Ok(()),\n        Err(TrySendError::Full(_)) => {', '    if tx.is_empty() {\n        return tx.send(item).map_err(|_| Error::EventLoopClientDropped);\n    }\n    match tx.try_send(item) {\n        Ok(()) => Ok(()),\n        Err(TrySendError::Full(_)) => {', 'R03.6')
@@ -252,3 +252,7 @@ BP('int-max-consts', 'benign-int-max-consts.diff', ['C02', 'C07', 'C10', 'C15', 
 
 # named instead of wildcard loop bindings, a local inlined, two locals hoisted (token, chunk)
 BP('locals-and-wildcards', 'benign-locals-and-wildcards.diff', ['C01', 'C05', 'C07', 'C08', 'C11', 'C13', 'C17', 'C18', 'C20'])
+
+# storing None again after `self.kind.take()` is a dead store: dropping it changes nothing (was wrongly listed as a mutant)
+B('dead-store-after-take', COLL, '                Content::Done(return_) => {\n                    self.kind = None;\n                    Ok(Some(CollectorResult::Return(return_)))\n                }\n                Content::NeedMore(state) => {\n                    self.kind = Some(Kind::Return(state));\n                    Ok(None)\n                }\n            },\n            Some(Kind::Get(state)) => match state.collect_body',
+  '                Content::Done(return_) => {\n                    Ok(Some(CollectorResult::Return(return_)))\n                }\n                Content::NeedMore(state) => {\n                    self.kind = Some(Kind::Return(state));\n                    Ok(None)\n                }\n            },\n            Some(Kind::Get(state)) => match state.collect_body', ['C03', 'C07'])
